@@ -13,6 +13,20 @@ import shutil
 import subprocess
 import sys
 import time
+
+
+def _crash_is_inconclusive(tp, val, tb):
+    """an uncaught exception anywhere (imports included) is a failure of the machinery, not a verdict: exit 2, never 1"""
+    import traceback as _tb
+    _tb.print_exception(tp, val, tb)
+    pid = os.path.splitext(os.path.basename(sys.argv[0] or 'check'))[0].upper()
+    print('INCONCLUSIVE property=%s internal error %s: %s' % (pid, tp.__name__, val), flush=True)
+    sys.stdout.flush()
+    sys.stderr.flush()
+    os._exit(2)
+
+
+sys.excepthook = _crash_is_inconclusive
 import traceback
 
 import z3
